@@ -1164,6 +1164,7 @@ func (c *Client) ReadBackoff(err error) <-chan struct{} {
 		c.reconnectWait = idle * 2
 	}
 
+	verifBackoffIdle(idle)
 	wait := make(chan struct{})
 	time.AfterFunc(idle, func() { close(wait) })
 	return wait
